@@ -28,6 +28,9 @@ CHECKS = {
     "C17": (MC, "explicit-state BFS to a fixpoint on the real UnitSystemManager in lock-step with a reference model that also predicts the callback log",
             "All reachable states of a fresh manager under 37 operations (add with 5 mapping forms incl. one dict shared between calls, remove, select, template, SetDefaultUnit / RemoveCategory on every registered system, GetNewId, ConvertToCurrent) over ids {a, b, 'system 1'} are explored to a fixpoint (15 452 states); accept/reject, ordered ids, mappings, current, template, the callback log delta and query results are compared with the model at every transition; rejected calls must change nothing. thorough adds a third id and more unit choices to depth 6.",
             "SetCurrent only receives registered systems or None; one on_current per selection event"),
+    "C15": (MC, "explicit-state BFS over interleavings of registrations, queries and failing operations on the real database; differential oracle warm database vs fresh database with the same registrations",
+            "All histories to depth 3 (quick) / 5 (thorough) over 9 registrations (two rejected) and 49 closed query terms (lookups, conversions, validity checks, construction, arithmetic, posc helpers, failing calls) run on a database rebuilt per history; the canonical outcome of every transition is compared with the outcome of the same operation on a fresh database that replayed only the registrations, and the public registry fingerprint is compared around every query.",
+            "operations are closed terms (objects do not persist between steps); depth bound"),
 }
 
 NOT_YET = {}
